@@ -49,10 +49,13 @@ def _evaluate(dec):
                 return ("const", int(op["bits"]))
             pl = op["place"]
             key = None
-            if not pl["proj"]:
+            pr = [e for e in pl["proj"] if e["k"] != "deref"]
+            if not pr:
                 key = (pl["local"], None)
-            elif len(pl["proj"]) == 1 and pl["proj"][0]["k"] == "field":
-                key = (pl["local"], pl["proj"][0]["i"])
+            elif len(pr) == 1 and pr[0]["k"] == "field":
+                key = (pl["local"], pr[0]["i"])
+            elif len(pr) == 2 and pr[0]["k"] == "downcast" and pr[1]["k"] == "field":
+                key = (pl["local"], (pr[0].get("variant"), pr[1]["i"]))
             return env.get(key)
 
         def rng(v):
@@ -108,15 +111,35 @@ def _evaluate(dec):
                 if pl["proj"]:
                     continue
                 key = (pl["local"], None)
-                env.pop(key, None)
-                env.pop((pl["local"], 0), None)
-                env.pop((pl["local"], 1), None)
+                for k2 in [k3 for k3 in env if k3[0] == pl["local"]]:
+                    env.pop(k2, None)
                 if rv["k"] == "aggregate" and rv["kind"]["k"] == "adt" and rv["kind"]["adt"].endswith("FromHumanReadableError"):
                     return ("invalid" if rv["kind"]["variant"] == "InvalidCharacter" else "other-error:" + rv["kind"]["variant"], None)
+                if rv["k"] == "aggregate" and rv["kind"]["k"] == "adt" and rv["kind"].get("adt") in ("std::option::Option", "std::result::Result"):
+                    # Some(x) / None / Ok(x): remember the variant and the payload
+                    env[(pl["local"], "variant")] = ("const", rv["kind"]["idx"])
+                    for j, o2 in enumerate(rv["ops"]):
+                        v = val(o2)
+                        if v is not None:
+                            env[(pl["local"], (rv["kind"]["variant"], j))] = v
+                    continue
+                if rv["k"] == "discriminant":
+                    p2 = rv["place"]
+                    if not [e for e in p2["proj"] if e["k"] != "deref"]:
+                        v = env.get((p2["local"], "variant"))
+                        if v is not None:
+                            env[key] = v
+                    continue
                 if rv["k"] == "use":
                     v = val(rv["op"])
                     if v is not None:
                         env[key] = v
+                    # moving a whole Option / tuple moves what is known about its parts
+                    o2 = rv["op"]
+                    if o2["k"] in ("copy", "move") and not o2["place"]["proj"]:
+                        for k2, v2 in list(env.items()):
+                            if k2[0] == o2["place"]["local"] and k2[1] is not None:
+                                env[(pl["local"], k2[1])] = v2
                 elif rv["k"] == "cast":
                     v = val(rv["op"])
                     if v is not None and v[0] in ("lin", "const"):
